@@ -282,6 +282,11 @@ def run(P: Program, R: Report, tier: str) -> None:
     from .memo import no_stale_memo
 
     no_stale_memo(P, R, "R07.12")
+    # ---- R02.6 (shared): every top-level action is one history step and a nested one none - a stray step makes a later
+    # undo / redo replay half an edit, which is a state this property quantifies over ("after every ... undo or redo")
+    from . import c02 as _c02r
+
+    _c02r.registration(P, R, tier, A=A, facade=False)
 
 
 def release_before_claim(R: Report, f, results, rule: str) -> None:
